@@ -585,7 +585,7 @@ fn gen_shape(g: &mut Gen, s: &[usize]) {
     g.e("o", "ArrayLinalgNorms", "norm", s, &[none.clone(), st("0,0")]);
     // ---- axis: Option<usize> / usize families
     for b in bad_u(r) {
-        g.e("u", "ArrayManipulate", "insert", s, &[st("0"), st("1"), b.clone()]);
+        g.e("m", "ArrayManipulate", "insert", s, &[st("0"), st("1"), b.clone()]);
         g.e("m", "ArrayManipulate", "delete", s, &[st("0"), b.clone()]);
         g.e("m", "ArrayManipulate", "append", s, &[l(s), b.clone()]);
         g.e("m", "ArraySplit", "array_split", s, &[st("1"), b.clone()]);
@@ -614,7 +614,7 @@ fn gen_shape(g: &mut Gen, s: &[usize]) {
     for i in [bound, bound + 1, usize::MAX] { g.e("m", "ArrayIndexing", "indices_at", s, &[i.to_string()]); g.e("m", "ArrayIndexing", "indices_at", s, &[format!("0,{i}")]); }
     for ax in 0..r {
         for i in [s[ax], s[ax] + 1, usize::MAX] { g.e("m", "ArrayManipulate", "delete", s, &[i.to_string(), ax.to_string()]); }
-        for i in [s[ax] + 1, s[ax] + 2, usize::MAX] { g.e("u", "ArrayManipulate", "insert", s, &[i.to_string(), st("1"), ax.to_string()]); }
+        for i in [s[ax] + 1, s[ax] + 2, usize::MAX] { g.e("m", "ArrayManipulate", "insert", s, &[i.to_string(), st("1"), ax.to_string()]); }
         // repeat counts of the wrong length for the axis
         g.e("m", "ArrayTiling", "repeat", s, &[l(&vec![1usize; s[ax] + 1]), ax.to_string()]);
     }
@@ -939,6 +939,183 @@ fn gen_part2_tail(g: &mut Gen, thorough: bool, captured: &[Captured]) {
     }
 }
 
+/// ROUND 5 (class 22): the three-argument relations of `insert(indices, values, Some(axis))`.  Since round 5 the driver runs the Lean
+/// model `Arr.insertAxis` (ArrModel/C01Diff.lean) on these lines.  Class `m` where the argument is invalid by one of the kinds the
+/// statement names on its own (axis outside the rank, an index above the bound, a values rank outside 1..=rank); class `x` for the
+/// relations (the MODEL decides between ok and err, the real call must fall into the same class, a panic always fails):
+///  A. number of indices (1, 2, 3; sorted, unsorted, repeated, at the bound) against the ROWS of the values (0..=7: equal, divisor,
+///     multiple, coprime, one more, one less, none at all) with the other axes matching / all 1, and the lower-rank spellings;
+///  B. the other axes of the values: match, 1, a proper divisor, a non-divisor, one too long, zero length - every combination;
+///  C. every index of a list of 1..3 pushed above the bound; axis outside the rank; values of rank 0, rank + 1, rank + 2.
+/// `level`: 0 = streams A and C with few index lists (variants / big receivers), 1 = quick, 2 = thorough.
+fn gen_insert_axis(g: &mut Gen, s: &[usize], level: usize) {
+    let r = s.len();
+    let (tr, m) = ("ArrayManipulate", "insert");
+    // the lower-rank spellings of a values shape: leading unit axes may be left out (`to_array_ndim` puts them back)
+    let spellings = |v: &[usize]| -> Vec<Vec<usize>> { let mut out = vec![v.to_vec()]; let mut k = 0; while k + 1 < v.len() && v[k] == 1 { k += 1; out.push(v[k..].to_vec()); } out };
+    for ax in 0..r {
+        let b = s[ax];
+        // index lists inside the bound
+        let mut lists: Vec<Vec<usize>> = vec![vec![0], vec![b], vec![0, b], vec![b, 0], vec![0, b / 2, b], vec![b, 0, b]];
+        if level >= 1 { lists.extend(vec![vec![b / 2], vec![0, 0], vec![b, b], vec![0, 0, 0], vec![b, b / 2, 0], vec![]]); }
+        if level >= 2 { lists.extend(vec![vec![0, 1.min(b), 0, b], vec![b.min(1), b.min(2)], vec![b.min(2), b.min(1), 0]]); }
+        if r == 1 { for i in 0..=b.min(6) { lists.push(vec![i]); lists.push(vec![i, b - i]); } }
+        lists.sort(); lists.dedup();
+        // the values shape is read in the receiver's rank; `swap(0, axis)` of it is compared with the receiver: position 0 holds the
+        // rows, position `ax` is compared with the receiver's axis 0, every other position with the receiver's axis of that position
+        let other: Vec<usize> = (0..r).filter(|&i| i != ax).collect();
+        let facing = |i: usize| -> usize { if i == 0 { ax } else { i } };     // position of the values shape that faces receiver axis i
+        let build = |rows: usize, t: &[usize]| -> Vec<usize> { let mut v = vec![1usize; r]; for (j, &i) in other.iter().enumerate() { v[facing(i)] = t[j]; } v[0] = rows; v };
+        let matching: Vec<usize> = other.iter().map(|&i| s[i]).collect();
+        let ones: Vec<usize> = vec![1; other.len()];
+        // A. rows against the number of indices
+        for li in &lists {
+            for rows in 0..=7usize {
+                if level == 0 && rows > 4 && rows != 6 { continue; }
+                let mut pats = vec![matching.clone(), ones.clone()];
+                if level >= 2 && other.len() == 2 { pats.push(vec![matching[0], 1]); pats.push(vec![1, matching[1]]); }
+                pats.dedup();
+                for t in &pats { for v in spellings(&build(rows, t)) { g.e("x", tr, m, s, &[l(li), l(&v), ax.to_string()]); } }
+            }
+        }
+        // B. the other axes: match / 1 / proper divisor / non-divisor / too long / zero
+        if level >= 1 && !other.is_empty() {
+            let opts: Vec<Vec<usize>> = other.iter().map(|&i| {
+                let si = s[i];
+                let mut o = vec![si, 1, si + 1, 0];
+                if let Some(d) = (2..si).find(|d| si % d == 0) { o.push(d); }
+                if let Some(d) = (2..si).find(|d| si % d != 0) { o.push(d); }
+                if level >= 2 { o.push(2 * si); }
+                o.sort(); o.dedup(); o }).collect();
+            let dims: Vec<usize> = opts.iter().map(Vec::len).collect();
+            let blists: Vec<Vec<usize>> = vec![vec![0], vec![0, b], vec![b, 0, b]];
+            for c in boxes(&dims) {
+                let t: Vec<usize> = c.iter().enumerate().map(|(j, &k)| opts[j][k]).collect();
+                for rows in [1usize, 2, 3] {
+                    if level < 2 && rows == 3 && r == 3 { continue; }
+                    for li in &blists { for v in spellings(&build(rows, &t)) { g.e("x", tr, m, s, &[l(li), l(&v), ax.to_string()]); } }
+                }
+            }
+        }
+        // C. an index above the bound in every position of lists of 1..3; values rank outside 1..=rank
+        for k in 1..=3usize { for p in 0..k { for bad in [b + 1, b + 2, usize::MAX, b + 256] {
+            if level == 0 && bad == b + 256 { continue; }
+            let mut li: Vec<usize> = (0..k).map(|j| if j % 2 == 0 { 0 } else { b }).collect(); li[p] = bad;
+            for rows in [1usize, k] { g.e("m", tr, m, s, &[l(&li), l(&build(rows, &matching)), ax.to_string()]); }
+        } } }
+        for li in [vec![0usize], vec![0, b]] {
+            g.e("m", tr, m, s, &[l(&li), st("-"), ax.to_string()]);
+            let mut big = vec![1usize]; big.extend(build(li.len(), &matching)); g.e("m", tr, m, s, &[l(&li), l(&big), ax.to_string()]);
+            let mut big2 = vec![1usize, 1]; big2.extend(build(1, &ones)); g.e("m", tr, m, s, &[l(&li), l(&big2), ax.to_string()]);
+        }
+    }
+    // C. axis outside the rank with arguments that fit every axis inside it
+    for bad in [r, r + 1, r + 256, usize::MAX] { for li in [vec![0usize], vec![0, 0], vec![0, 0, 0]] {
+        g.e("m", tr, m, s, &[l(&li), l(s), bad.to_string()]); g.e("m", tr, m, s, &[l(&li), st("1"), bad.to_string()]);
+    } }
+}
+
+/// the receivers of the insert(axis) streams
+fn insert_axis_shapes(thorough: bool) -> Vec<Vec<usize>> {
+    let mut v: Vec<Vec<usize>> = vec![vec![1], vec![2], vec![3], vec![4], vec![5], vec![7]];
+    v.extend(shapes(2, 2, 1, 3));
+    v.extend(vec![vec![2, 4], vec![4, 2], vec![3, 6], vec![6, 3], vec![2, 6], vec![3, 4], vec![4, 3], vec![2, 5]]);
+    if thorough { v.extend(shapes(3, 3, 1, 3)); v.extend(vec![vec![3, 2, 4], vec![2, 4, 3], vec![4, 3, 2], vec![3, 4, 1], vec![2, 6, 2], vec![3, 3, 6], vec![2, 2, 2, 2], vec![3, 1, 2, 2], vec![5, 5], vec![6, 6]]); }
+    else { v.extend(vec![vec![2, 3, 2], vec![3, 2, 4], vec![1, 3, 2], vec![2, 1, 3], vec![3, 3, 3], vec![2, 2, 2], vec![3, 4, 1], vec![1, 1, 1], vec![2, 4, 3]]); }
+    v
+}
+
+/// ROUND 5 (class 20): receivers above 2^24 elements (a count or bound computed through `as f32` is exact only up to 2^24), u8 elements,
+/// plain receiver; the invalid arguments are the ones the statement names (axis outside the rank, index / coordinate at or above
+/// the bound, a shape of another element count, zero parts), all refused before the elements are touched.  Class `u`: the driver
+/// answers the constant `err` (the list-backed model would need a 16-million-element list per line).
+fn gen_giant(g: &mut Gen, thorough: bool) {
+    let mut shs: Vec<Vec<usize>> = vec![vec![16_777_217], vec![2, 8_388_609]];
+    if thorough { shs.extend(vec![vec![4097, 4097], vec![16_777_219], vec![3, 5_592_407]]); }
+    for s in &shs {
+        let r = s.len();
+        let n: usize = s.iter().product();
+        let mut e = |tr: &str, m: &str, toks: &[String]| { let mut line = format!("u-u8p.{tr}.{m} {}", l(s)); for t in toks { line.push(' '); line.push_str(t); } (g.out)(line); };
+        for i in [n, n + 1] {
+            e("ArrayIndexing", "index_to_coord", &[i.to_string()]);
+            e("ArrayManipulate", "delete", &[i.to_string(), st("none")]);
+            e("ArrayManipulate", "insert", &[(i + 1).to_string(), st("1"), st("none")]);
+            e("ArrayIndexing", "slice", &[st("0"), (i + 1).to_string()]);
+        }
+        for p in 0..r { for v in [s[p], s[p] + 1] { let mut c = vec![0usize; r]; c[p] = v; e("ArrayIndexing", "index_at", &[l(&c)]); e("ArrayIndexing", "at", &[l(&c)]); } }
+        let bound = if r == 1 { n } else { s[0] };
+        e("ArrayIndexing", "indices_at", &[bound.to_string()]);
+        for sh in [vec![n + 1], vec![n - 1], vec![2, n / 2 + 1]] { e("ArrayManipulate", "reshape", &[l(&sh)]); }
+        e("ArrayBroadcast", "broadcast_to", &[l(&{ let mut t = s.clone(); t[r - 1] += 1; t })]);
+        for ax in [r, r + 1] {
+            e("ArraySplit", "split_axis", &[ax.to_string()]);
+            e("ArraySplit", "array_split", &[st("1"), ax.to_string()]);
+            e("ArrayTiling", "repeat", &[st("1"), ax.to_string()]);
+            e("ArrayAxis", "apply_along_axis", &[ax.to_string()]);
+            e("ArrayAxis", "swapaxes", &[ax.to_string(), st("0")]);
+            e("ArrayAxis", "squeeze", &[ax.to_string()]);
+            e("ArrayReorder", "flip", &[ax.to_string()]);
+            e("ArrayReorder", "roll", &[st("1"), ax.to_string()]);
+            e("ArrayManipulate", "insert", &[st("0"), st("1"), ax.to_string()]);
+            e("ArrayManipulate", "delete", &[st("0"), ax.to_string()]);
+            e("ArrayManipulate", "append", &[st("1"), ax.to_string()]);
+            e("ArrayCount", "count_nonzero", &[ax.to_string()]);
+            e("ArraySearch", "argmax", &[ax.to_string()]);
+        }
+        for ax in 0..r { e("ArrayManipulate", "insert", &[(s[ax] + 1).to_string(), st("1"), ax.to_string()]); }
+        e("ArraySplit", "array_split", &[st("0"), st("none")]);
+        e("ArraySplit", "split", &[st("0"), st("0")]);
+        e("ArrayManipulate", "atleast", &[st("4")]);
+    }
+}
+
+/// ROUND 5 (class 21): constructor arguments whose SPAN is at or above 2^32 / 2^53 with a count that stays small: must answer Ok or Err
+fn gen_constructor_bands(g: &mut Gen, thorough: bool) {
+    let s0: &[usize] = &[1];
+    let mut ks: Vec<u32> = vec![31, 32, 33, 52, 53, 62];
+    if thorough { ks.extend(vec![16, 24, 40, 47, 54, 61]); }
+    let mut bases: Vec<i64> = vec![];
+    for &k in &ks { let p = 1i64 << k; bases.extend(vec![p, p - 1, p + 1]); }
+    for e in [9u32, 10, 15, 18] { bases.push(10i64.pow(e)); }
+    for &b in &bases {
+        for start in [0i64, 1, -1, -b] {
+            let span = b as i128 - start as i128;
+            for cnt in [1i128, 2, 10, 11] {
+                let step = span / cnt;
+                if step == 0 || step > i64::MAX as i128 { continue; }
+                g.e("t", "ArrayCreateNumeric", "arange", s0, &[start.to_string(), b.to_string(), step.to_string()]);
+                g.e("t", "ArrayCreateNumeric", "arange", s0, &[b.to_string(), start.to_string(), (-step).to_string()]);
+            }
+            for num in ["none", "0", "1", "2", "11"] { for ep in ["none", "false"] {
+                g.e("t", "ArrayCreateNumeric", "linspace", s0, &[start.to_string(), b.to_string(), st(num), st(ep)]);
+                if start > 0 { g.e("t", "ArrayCreateNumeric", "geomspace", s0, &[start.to_string(), b.to_string(), st(num), st(ep)]); }
+            } }
+        }
+        g.e("t", "ArrayCreateNumeric", "arange", s0, &[st("0"), b.to_string(), b.to_string()]);
+        g.e("t", "ArrayCreateNumeric", "arange", s0, &[b.to_string(), (b as i128 + 5).min(i64::MAX as i128).to_string(), st("none")]);
+    }
+}
+
+fn gen_round5(g: &mut Gen, thorough: bool) {
+    g.with("", Only::All);
+    gen_constructor_bands(g, thorough);
+    gen_giant(g, thorough);
+    for s in insert_axis_shapes(thorough) { gen_insert_axis(g, &s, if thorough { 2 } else { 1 }); }
+    // zero-size receivers (the model decides; the refusals of class m come before anything looks at the elements) and big ones
+    for s in zero_shapes().into_iter().chain(vec![vec![0, 3], vec![3, 0], vec![3, 0, 2]]) { gen_insert_axis(g, &s, 1); }
+    // (the list-backed model of the values stretching is quadratic in the lane length: [2,600] 36 ms per line, [70,70] 100 ms, [3,3000] 3 s)
+    let mut big: Vec<Vec<usize>> = vec![vec![600], vec![17, 16], vec![2, 70, 2], vec![2, 130], vec![130, 2], vec![3, 65]];
+    if thorough { big.extend(vec![vec![4100], vec![2, 300], vec![600, 2], vec![5, 5, 5, 5], vec![30, 30]]); }
+    for s in &big { gen_insert_axis(g, s, 0); }
+    // the plain receiver and the other element types
+    for (suf, only) in [("-p", Only::ResImpl), ("-u8r", Only::Generic), ("-f64p", Only::Generic), ("-strr", Only::Generic), ("-u8p", Only::Generic), ("-f64r", Only::Generic), ("-strp", Only::Generic)] {
+        if !thorough && (suf == "-u8p" || suf == "-f64r" || suf == "-strp") { continue; }
+        g.with(suf, only);
+        for s in [vec![3usize], vec![2, 3], vec![3, 3], vec![3, 4], vec![2, 3, 2], vec![3, 2, 4], vec![0, 2]] { gen_insert_axis(g, &s, if thorough { 1 } else { 0 }); }
+    }
+    g.with("", Only::All);
+}
+
 /// traits, `Trait.method` or `class.Trait.method` keys left out on the huge receivers of stream 8c: the real call or the list-backed
 /// model is not an early refusal there (measured: more than ~50 ms per line at 20 000 elements)
 const HUGE_SKIP: &[&str] = &["ArrayStringCompare", "ArrayStringIndexing", "ArrayStringManipulate", "ArrayStringValidate", "ArrayJoining.vstack", "ArrayJoining.row_stack", "o.ArrayReorder.flip"];
@@ -964,6 +1141,15 @@ fn gen(tier: &str, _seed: u64, out: &mut dyn FnMut(String)) {
     if thorough { tsh.extend(shapes(1, 3, 0, 2)); }
     for s in &tsh { gen_total(&mut g, s); }
     gen_static_total(&mut g);
+    // 4b. rank-0 receivers (`Array::new(vec![x], vec![])`, shape `-`): `array_split` / `split` validate the DEFAULTED axis (/repo 3685e2a),
+    //     so `None` (= axis 0, which a rank-0 array does not have) is an invalid argument: Err(AxisOutOfBounds), formerly a panic at `shape[0]`
+    for (suf, only) in [("", Only::All), ("-p", Only::ResImpl), ("-u8r", Only::Generic)] {
+        g.with(suf, only);
+        for p in ["1", "2", "0"] { for ax in ["none", "0"] { for m in ["array_split", "split"] { g.e("m", "ArraySplit", m, &[], &[st(p), st(ax)]); } } }
+        g.e("m", "ArraySplit", "split_axis", &[], &[st("0")]);
+        for m in ["hsplit", "vsplit", "dsplit"] { g.e("m", "ArraySplit", m, &[], &[st("1")]); }
+    }
+    g.with("", Only::All);
 
     // 7. ROBUSTNESS STREAMS (FRAMEWORK.md).  Class suffixes: `-z` zero-size receiver (an argument the model accepts there is not
     //    invalid: open), `-p` plain `Array<T>` receiver, `-u8r` … element type + receiver.
@@ -1014,6 +1200,9 @@ fn gen(tier: &str, _seed: u64, out: &mut dyn FnMut(String)) {
     // 8. ROBUSTNESS STREAMS, PART 2
     gen_part2(&mut g, thorough, &captured);
     gen_part2_tail(&mut g, thorough, &captured);
+
+    // 9. ROUND 5: the three-argument relations of insert along an axis (model: Arr.insertAxis)
+    gen_round5(&mut g, thorough);
 
     // 5. option spellings through the five public parsers (&str and String impls)
     let seen = std::mem::take(&mut g.seen);
@@ -1075,7 +1264,7 @@ fn observe(op: &str, args: &[&str]) -> Option<String> {
     for f in parts { if f != "z" { alt = f; } }
     match cls {
         "p" | "ea" => { let i: usize = args.get(1)?.strip_prefix('e')?.parse().ok()?; let errs = error_values(); let e = errs.get(i)?; run_entry(rest, alt, &Rc::Err(e), if cls == "ea" { &args[2..] } else { &[] }) }
-        "m" | "b" | "u" | "o" | "n" | "t" => run_entry(rest, alt, &Rc::Shape(parse_usize_list(args.first()?)), &args[1..]),
+        "m" | "b" | "u" | "o" | "n" | "t" | "x" => run_entry(rest, alt, &Rc::Shape(parse_usize_list(args.first()?)), &args[1..]),
         _ => None,
     }
 }
@@ -1095,7 +1284,7 @@ fn exec(op: &str, args: &[&str], expected: &str) -> Option<Verdict> {
     if small { if let (Verdict::Match(t) | Verdict::Open(t), true) = (&verdict, observe_class(op)) { PREV.with(|p| *p.borrow_mut() = Some((op.to_string(), args.iter().map(|x| x.to_string()).collect(), t.trim_start_matches("closure-called (").trim_end_matches(')').to_string()))); } }
     Some(verdict)
 }
-fn observe_class(op: &str) -> bool { matches!(op.split_once('.').map(|x| x.0.split('-').next().unwrap_or("")), Some("m" | "b" | "u" | "o" | "n" | "t" | "p" | "ea")) }
+fn observe_class(op: &str) -> bool { matches!(op.split_once('.').map(|x| x.0.split('-').next().unwrap_or("")), Some("m" | "b" | "u" | "o" | "n" | "t" | "x" | "p" | "ea")) }
 
 fn exec_case(op: &str, args: &[&str], expected: &str) -> Option<Verdict> {
     let (cls_full, rest) = op.split_once('.')?;
@@ -1134,11 +1323,21 @@ fn exec_case(op: &str, args: &[&str], expected: &str) -> Option<Verdict> {
             if observed == expected { Some(Verdict::Match(observed)) }
             else { Some(Verdict::Mismatch { detail: format!("invoked on Err({e:?}){}; the earlier error must come back unchanged — the model (liftR) says `{expected}`", if cls == "ea" { " with invalid arguments" } else { "" }), observed }) }
         }
-        "m" | "b" | "u" | "o" | "n" | "t" => {
+        "m" | "b" | "u" | "o" | "n" | "t" | "x" => {
             let sh = parse_usize_list(args.first()?);
             let observed = run_entry(rest, alt, &Rc::Shape(sh.clone()), &args[1..])?;
             let oc = class_of(&observed);
             match cls {
+                "x" => {
+                    // the model decides: the real call must fall into the model's outcome class (twice)
+                    let again = run_entry(rest, alt, &Rc::Shape(sh), &args[1..])?;
+                    if again != observed { return Some(Verdict::Mismatch { detail: format!("the same call a second time gives `{again}`"), observed }); }
+                    let ec = class_of(expected);
+                    if ec != "ok" && ec != "err" { return Some(Verdict::Mismatch { detail: format!("the MODEL answers `{expected}` (a fallible operation must return Ok or Err)"), observed }); }
+                    if oc == ec { Some(Verdict::Match(observed)) }
+                    else if ec == "err" { Some(Verdict::Mismatch { detail: format!("the model refuses these arguments (`{expected}`): the outcome must be an error value"), observed }) }
+                    else { Some(Verdict::Mismatch { detail: "the model accepts these arguments (ok): the real call must succeed (and never panic)".into(), observed }) }
+                }
                 "m" | "b" | "u" => {
                     // the same call a second time must give the same outcome
                     let again = run_entry(rest, alt, &Rc::Shape(sh), &args[1..])?;
@@ -1160,7 +1359,7 @@ fn exec_case(op: &str, args: &[&str], expected: &str) -> Option<Verdict> {
 }
 
 /// non-trivial: an invalid argument, an unknown/known option spelling, or an error receiver (not the smoke / extreme-value / open / accounting lines)
-fn nontrivial(op: &str, _args: &[&str]) -> bool { matches!(op.split_once('.').map(|x| x.0.split('-').next().unwrap_or("")), Some("m" | "b" | "u" | "p" | "ea" | "opt")) }
+fn nontrivial(op: &str, _args: &[&str]) -> bool { matches!(op.split_once('.').map(|x| x.0.split('-').next().unwrap_or("")), Some("m" | "b" | "u" | "x" | "p" | "ea" | "opt")) }
 
 fn main() {
     harness_main(Spec { prop: "C09", gen, exec, nontrivial, hang_secs: 20,
